@@ -1165,7 +1165,7 @@ class PDFCIDFont(PDFFont):
                 CMapParser(self.unicode_map, BytesIO(strm.get_data())).run()
             else:
                 cmap_name = literal_name(spec["ToUnicode"])
-                encoding = literal_name(spec["Encoding"])
+                encoding = literal_name(spec.get("Encoding", ""))
                 if (
                     "Identity" in cid_ordering
                     or "Identity" in cmap_name
